@@ -12,6 +12,10 @@ pub assume_specification<T: Ord> [core::cmp::min] (a: T, b: T) -> (r: T)
 //key: [u8::is_ascii_digit]
 pub assume_specification [u8::is_ascii_digit] (b: &u8) -> (r: bool)
     ensures r == (0x30 <= *b <= 0x39);
+//key: ::contains]
+// <[T]>::contains for element types whose == is structural equality (u8, u16, char ... as used in this crate's byte classifiers)
+pub assume_specification<T: PartialEq> [<[T]>::contains] (s: &[T], x: &T) -> (r: bool)
+    ensures r == s@.contains(*x);
 //key: [u8::is_ascii_graphic]
 pub assume_specification [u8::is_ascii_graphic] (b: &u8) -> (r: bool)
     ensures r == (0x21 <= *b <= 0x7E);
